@@ -455,25 +455,20 @@ class Ctx:
         if r == z3.unknown and guard:
             pass
         elif r == z3.unknown and not forked:
-            # the incremental solver gives up more easily (no preprocessing): retry the same query on fresh solvers
-            for seed in (self.cfg.seed, self.cfg.seed + 7, self.cfg.seed + 101):
-                fs = z3.Solver()
-                fs.set('random_seed', seed)
-                for a_ in self.s.assertions():
-                    fs.add(a_)
-                t1 = time.time()
-                r = self.timed_check(fs, self.cfg.prove_timeout_ms)
-                ms += (time.time() - t1) * 1000
-                if r == z3.sat:
-                    model = self.model_dict(fs.model())
-                    backend = 'z3-fresh'
-                    break
-                if r == z3.unsat:
-                    backend = 'z3-fresh'
-                    break
+            # the short in-process attempt gave up (or the machine is busy): the same query goes to the portfolio - the path's own
+            # incremental solver with the full budget and another seed, and fresh solvers (preprocessing) with further seeds - in
+            # forked children that start together; the first definite answer wins
+            t1 = time.time()
+            r, model = self.raced_check(self.s, self.cfg.prove_timeout_ms, want_model=True)
+            ms += (time.time() - t1) * 1000
+            if r != z3.unknown:
+                backend = 'z3-portfolio'
         if r == z3.sat:
             if model is None and not forked:
-                model = self.model_dict(self.s.model())
+                try:
+                    model = self.model_dict(self.s.model())
+                except z3.Z3Exception:
+                    model = {}
         elif r == z3.unknown and self.cfg.use_cvc5 and not guard:
             smt2 = self.s.to_smt2()
             t1 = time.time()
